@@ -507,6 +507,8 @@ pub fn run_c13(c: &SdCase, acc: &mut Acc) -> Result<(), Failure> {
                 Fault::WriteStatus { r1, status, .. } => (*r1 & 0x7F) != 0 || *status != 0,
                 Fault::SpiError { .. } => !spi_error_in_ignored_trailer(&card),
                 Fault::DeadFrom { .. } | Fault::BusyFrom { .. } | Fault::GarbageFrom { .. } => false,
+                // only version 2 cards answer CMD8 with an echo; identification must give up
+                Fault::WrongCmd8Echo { .. } => true,
             };
             match &r {
                 Ok(out) => {
@@ -536,7 +538,7 @@ pub fn run_c13(c: &SdCase, acc: &mut Acc) -> Result<(), Failure> {
                 && reads_before == card.0.borrow().reads_sent
                 && i == first_device_call(c)
                 && r.is_err()
-                && matches!(f, Fault::DeadFrom { .. } | Fault::SpiError { .. });
+                && matches!(f, Fault::DeadFrom { .. } | Fault::SpiError { .. } | Fault::WrongCmd8Echo { .. });
             card.power_cycle();
             if !(init_failure) {
                 sd.mark_card_uninit();
@@ -605,6 +607,7 @@ fn fault_name(f: &Fault) -> &'static str {
         Fault::BusyFrom { .. } => "busy-from",
         Fault::GarbageFrom { .. } => "garbage-from",
         Fault::SpiError { .. } => "spi-error",
+        Fault::WrongCmd8Echo { .. } => "wrong-cmd8-echo",
     }
 }
 
@@ -628,8 +631,19 @@ pub fn capacity_strategy(kind: Kind) -> BoxedStrategy<Capacity> {
 
 pub fn timing_strategy(near_budget: bool) -> BoxedStrategy<Timing> {
     let big = if near_budget { prop_oneof![4 => (0u16..40), 1 => (9_990u16..9_999)].boxed() } else { (0u16..40).boxed() };
-    (0u8..9, big.clone(), prop_oneof![3 => (0u16..60), 1 => Just(0u16)], (0u16..60), prop_oneof![9 => (0u16..6), 1 => (10_001u16..10_040)], prop_oneof![4 => Just(0u8), 1 => (1u8..3)])
-        .prop_map(|(ncr, token_delay, busy_write, busy_stop, init_polls, cmd0_ignored)| Timing { ncr, token_delay, busy_write, busy_stop, init_polls, cmd0_ignored })
+    (
+        0u8..9,
+        big.clone(),
+        // busy after a data block: short, none, or long but inside the 50,000-poll write budget
+        prop_oneof![6 => (0u16..60), 2 => Just(0u16), 1 => (10_001u16..49_000)],
+        // busy after CMD12 / the stop token: the driver only waits for it with the command
+        // budget (10,000 polls) of the *next* command, so that is the bound here
+        prop_oneof![8 => (0u16..60), 1 => (9_000u16..9_990)],
+        prop_oneof![9 => (0u16..6), 1 => (10_001u16..10_040)],
+        prop_oneof![4 => Just(0u8), 1 => (1u8..3)],
+        prop_oneof![3 => Just(0u8), 1 => Just(0x20u8), 1 => Just(0x01u8), 1 => Just(0x08u8), 1 => Just(0x29u8)],
+    )
+        .prop_map(|(ncr, token_delay, busy_write, busy_stop, init_polls, cmd0_ignored, ocr_extra)| Timing { ncr, token_delay, busy_write, busy_stop, init_polls, cmd0_ignored, ocr_extra })
         .boxed()
 }
 
@@ -683,6 +697,7 @@ pub fn fault_strategy() -> impl Strategy<Value = Fault> {
         3 => prop_oneof![(0u32..200), (0u32..5000)].prop_map(|at| Fault::BusyFrom { at }),
         3 => (prop_oneof![(0u32..200), (0u32..5000)], any::<u32>()).prop_map(|(at, seed)| Fault::GarbageFrom { at, seed }),
         3 => prop_oneof![(0u32..60), (0u32..2000)].prop_map(|nth_transaction| Fault::SpiError { nth_transaction }),
+        1 => prop_oneof![Just(0x00u8), Just(0xFFu8), Just(0x55u8), any::<u8>()].prop_map(|echo| Fault::WrongCmd8Echo { echo }),
     ]
 }
 
@@ -696,7 +711,7 @@ pub fn enumerate_bit_flips(acc: &mut Acc, test: &dyn Fn(&SdCase, &mut Acc) -> Re
                 use_crc: true,
                 acquire_retries: 2,
                 cap: cap.clone(),
-                timing: Timing { ncr: (bit % 9) as u8, token_delay: bit % 5, busy_write: 3, busy_stop: 2, init_polls: 1, cmd0_ignored: 0 },
+                timing: Timing { ncr: (bit % 9) as u8, token_delay: bit % 5, busy_write: 3, busy_stop: 2, init_polls: 1, cmd0_ignored: 0, ocr_extra: 0 },
                 bg_seed: 77 + bit as u32,
                 calls: vec![SdCall::Write { block: BlockSel::Exact(5), n: 1, seed: bit as u32 }, SdCall::Read { block: BlockSel::Exact(5), n: 1 }, SdCall::Read { block: BlockSel::Exact(5), n: 1 }],
                 faults: vec![Fault::FlipBit { nth_read: 0, bit }],
@@ -719,7 +734,7 @@ pub fn enumerate_bit_flips(acc: &mut Acc, test: &dyn Fn(&SdCase, &mut Acc) -> Re
                         use_crc: false,
                         acquire_retries: 2,
                         cap: cap.clone(),
-                        timing: Timing { ncr: 1, token_delay: 1, busy_write: 0, busy_stop: 0, init_polls: 0, cmd0_ignored: 0 },
+                        timing: Timing { ncr: 1, token_delay: 1, busy_write: 0, busy_stop: 0, init_polls: 0, cmd0_ignored: 0, ocr_extra: 0 },
                         bg_seed: 3,
                         calls: vec![call, SdCall::Read { block: BlockSel::Zero, n: 1 }],
                         faults: vec![Fault::FlipBit { nth_read: 0, bit }],
